@@ -52,12 +52,15 @@ func (s Sort) String() string {
 // Term is a node of an SMT term DAG. Terms are created per run; ID is unique
 // within the Ctx that created them.
 type Term struct {
-	ID   int
-	Op   string // SMT-LIB operator / "var" / "const" / "true" / "false" / raw indexed op text
-	Args []*Term
-	S    Sort
-	Name string // for var
-	Val  uint64 // for BV const
+	ID     int
+	Op     string // SMT-LIB operator / "var" / "const" / "true" / "false" / raw indexed op text
+	Args   []*Term
+	S      Sort
+	Name   string  // for var
+	Val    uint64  // for BV const
+	VarIdx int     // for var: index among the run's inputs
+	H1, H2 uint64  // structural hash (variables by index, so stable across runs)
+	Vars   []int32 // sorted indices of the input variables the term depends on
 }
 
 // Ctx remembers the input variables declared during one run.
@@ -70,13 +73,87 @@ func NewCtx() *Ctx { return &Ctx{} }
 var nextID int64
 
 func mk(op string, s Sort, args ...*Term) *Term {
-	return &Term{ID: int(atomic.AddInt64(&nextID, 1)), Op: op, Args: args, S: s}
+	t := &Term{ID: int(atomic.AddInt64(&nextID, 1)), Op: op, Args: args, S: s}
+	h1, h2 := hashStr(op, uint64(s.K)<<8|uint64(s.W))
+	for _, a := range args {
+		h1 = (h1 ^ a.H1) * 1099511628211
+		h1 ^= h1 >> 29
+		h2 = (h2+a.H2)*0x9E3779B97F4A7C15 + 0x632BE59BD9B4E019
+		h2 ^= h2 >> 31
+		t.Vars = mergeVars(t.Vars, a.Vars)
+	}
+	t.H1, t.H2 = h1, h2
+	return t
+}
+
+func hashStr(s string, seed uint64) (uint64, uint64) {
+	h1 := uint64(14695981039346656037) ^ seed
+	h2 := uint64(0x9E3779B97F4A7C15) + seed*31
+	for i := 0; i < len(s); i++ {
+		h1 = (h1 ^ uint64(s[i])) * 1099511628211
+		h2 = (h2 + uint64(s[i]) + 1) * 0xBF58476D1CE4E5B9
+		h2 ^= h2 >> 32
+	}
+	return h1, h2
+}
+
+func rehash(t *Term, extra uint64) {
+	t.H1 = (t.H1 ^ extra) * 1099511628211
+	t.H1 ^= t.H1 >> 29
+	t.H2 = (t.H2+extra)*0x94D049BB133111EB + 1
+	t.H2 ^= t.H2 >> 31
+}
+
+// mergeVars returns the sorted union of two sorted index lists, sharing
+// storage when one contains the other.
+func mergeVars(a, b []int32) []int32 {
+	if len(a) == 0 {
+		return b
+	}
+	if len(b) == 0 {
+		return a
+	}
+	// fast paths
+	if len(a) == len(b) {
+		same := true
+		for i := range a {
+			if a[i] != b[i] {
+				same = false
+				break
+			}
+		}
+		if same {
+			return a
+		}
+	}
+	out := make([]int32, 0, len(a)+len(b))
+	i, j := 0, 0
+	for i < len(a) && j < len(b) {
+		switch {
+		case a[i] < b[j]:
+			out = append(out, a[i])
+			i++
+		case a[i] > b[j]:
+			out = append(out, b[j])
+			j++
+		default:
+			out = append(out, a[i])
+			i++
+			j++
+		}
+	}
+	out = append(out, a[i:]...)
+	out = append(out, b[j:]...)
+	return out
 }
 
 // Var declares a fresh input variable named v<i>.
 func (c *Ctx) Var(s Sort) *Term {
 	t := mk("var", s)
 	t.Name = fmt.Sprintf("v%d", len(c.Vars))
+	t.VarIdx = len(c.Vars)
+	t.Vars = []int32{int32(t.VarIdx)}
+	rehash(t, uint64(t.VarIdx)+1)
 	c.Vars = append(c.Vars, t)
 	return t
 }
@@ -90,6 +167,7 @@ func Const(s Sort, v uint64) *Term {
 	}
 	t := mk("const", s)
 	t.Val = v
+	rehash(t, v)
 	return t
 }
 
